@@ -277,12 +277,15 @@ impl Blk {
 
         for (index, jmp) in self.jmps.iter_mut().enumerate() {
             match jmp.term.mnemonic {
-                JmpType::BRANCHIND | JmpType::CALLIND => {
+                JmpType::BRANCHIND | JmpType::CALLIND | JmpType::RETURN | JmpType::CBRANCH => {
                     let input = match jmp.term.mnemonic {
-                        JmpType::BRANCHIND => match jmp.term.goto.as_mut().unwrap() {
-                            Label::Indirect(expr) => expr,
-                            Label::Direct(_) => panic!(),
-                        },
+                        JmpType::BRANCHIND | JmpType::RETURN => {
+                            match jmp.term.goto.as_mut().unwrap() {
+                                Label::Indirect(expr) => expr,
+                                Label::Direct(_) => panic!(),
+                            }
+                        }
+                        JmpType::CBRANCH => jmp.term.condition.as_mut().unwrap(),
                         JmpType::CALLIND => {
                             match jmp.term.call.as_mut().unwrap().target.as_mut().unwrap() {
                                 Label::Indirect(expr) => expr,
